@@ -233,3 +233,117 @@ def register(reg, prop):
             ensures=reported if n is None else reported4,
         ), callsite=False)
     reg.external["pickle.load"] = pickle_load
+
+    # ==== suffixed result tags (Observable(tag_suffix=...)) ===========================================
+    # A result stored under f"{base}_{suffix}" is of the same per-atom kind as `base` and must come
+    # home to register order exactly like it; results of other kinds (energy...) must stay untouched.
+    TM = D.ResultsModel
+
+    def tag_clause(new, old, tag, p, home, guard=None, n="N", times="TIMES"):
+        """one clause per tag: home=True  -> new[..perm[i]..] == old[..i..]   (site -> register order)
+                               home=False -> new[..i..] == old[..perm[i]..]   (helper: out[k] = in[perm[k]])"""
+        g = (lambda body: body) if guard is None else (lambda body: f"implies({guard}, {body})")
+        a1, b1 = (f"[{p}[i]]", "[i]") if home else ("[i]", f"[{p}[i]]")
+        a2, b2 = (f"[{p}[i], {p}[j]]", "[i, j]") if home else ("[i, j]", f"[{p}[i], {p}[j]]")
+        kind = TM.kind_of(tag)
+        if kind == "bitstrings":
+            body = (f"len(bitkey({new}[{tag!r}][t])) == {n}"
+                    f" and bitcount({new}[{tag!r}][t]) == bitcount({old}[{tag!r}][t])"
+                    f" and bitkey({new}[{tag!r}][t]){a1} == bitkey({old}[{tag!r}][t]){b1}")
+            return f"forall(lambda t: forall(lambda i: {g(body)}, 0, {n}), 0, {times})"
+        if kind == "occupation":
+            return (f"forall(lambda t: forall(lambda i: " + g(f"{new}[{tag!r}][t]{a1} == {old}[{tag!r}][t]{b1}")
+                    + f", 0, {n}), 0, {times})")
+        if kind == "correlation_matrix":
+            return (f"forall(lambda t: forall(lambda i: forall(lambda j: "
+                    + g(f"{new}[{tag!r}][t]{a2} == {old}[{tag!r}][t]{b2}") + f", 0, {n}), 0, {n}), 0, {times})")
+        return f"same({new}[{tag!r}], {old}[{tag!r}])"          # not per atom: the very same data
+
+    def setup_helper_all(I, fr):
+        D.use_interp(I)
+        n = P.sym_len(I, "N", 0)
+        r = D.results_obj(I, n, tags=TM.ALL_TAGS)
+        fr.locals.update(results=r, perm=P.perm_tensor(I, "perm", n), N=n, TIMES=r.ghost_times)
+
+    bit_tags = [t for t in TM.ALL_TAGS if TM.kind_of(t) == "bitstrings"]
+    vec_tags = [t for t in TM.ALL_TAGS if TM.kind_of(t) in ("occupation", "correlation_matrix")]
+    reg.add_contract(Contract(
+        f"{IMPL}:permute_bitstrings", property=prop, label="permute_bitstrings[tag_suffix]",
+        params={"results": none, "perm": none}, setup=setup_helper_all,
+        requires=["isperm(perm)"], raises={},
+        # every bitstring result, exact tag or suffixed, is permuted; everything else is left alone
+        ensures=[tag_clause(RES, OLD, t, "perm", home=False) for t in bit_tags]
+                + [f"same({RES}[{t!r}], {OLD}[{t!r}])" for t in TM.ALL_TAGS if t not in bit_tags],
+    ), callsite=False)
+    reg.add_contract(Contract(
+        f"{IMPL}:permute_occupations_and_correlations", property=prop,
+        label="permute_occupations_and_correlations[tag_suffix]",
+        params={"results": none, "perm": none}, setup=setup_helper_all,
+        requires=["isperm(perm)"], raises={},
+        ensures=[tag_clause(RES, OLD, t, "perm", home=False) for t in vec_tags]
+                + [f"same({RES}[{t!r}], {OLD}[{t!r}])" for t in TM.ALL_TAGS if t not in vec_tags],
+    ), callsite=False)
+
+    per_atom = [t for t in TM.ALL_TAGS if TM.kind_of(t) is not None]
+    suffixed = [t for t in per_atom if t not in TM.TAGS]
+    other = [t for t in TM.ALL_TAGS if TM.kind_of(t) is None]
+
+    def setup_pr_all(N=None):
+        def _setup(I, fr):
+            o = site_impl(I, N)
+            n = o.ghost_N
+            r = D.results_obj(I, n, atom_order=o.fields["results"].fields["atom_order"], tags=TM.ALL_TAGS)
+            fr.locals.update(self=o, results=r, permute=I.ctx.fresh("permute", "bool"), N=n, TIMES=r.ghost_times,
+                             perm=o.fields["qubit_permutation"], ids=o.fields["pulser_data"].fields["qubit_ids"])
+        return _setup
+
+    reg.add_contract(Contract(
+        f"{IMPL}:MPSBackendImpl.permute_results", property=prop, label="MPSBackendImpl.permute_results[tag_suffix]",
+        params={"self": none, "results": none, "permute": none}, setup=setup_pr_all(), policies=helpers_inline,
+        requires=["isperm(perm)"], raises={},
+        ensures=register_order
+                # moved_home for EVERY per-atom tag, exact or suffixed
+                + [tag_clause(RES, OLD, t, "perm", home=True, guard="permute") for t in per_atom]
+                + [f"implies(not permute, same({RES}[{t!r}], {OLD}[{t!r}]))" for t in per_atom]
+                # results that are not per atom are never touched
+                + [f"same({RES}[{t!r}], {OLD}[{t!r}])" for t in other],
+    ), callsite=False)
+
+    # a finished / resumed run whose observables carry tag suffixes
+    def run_model_all(I, impl):
+        res = impl.fields["results"]
+        filled = D.results_obj(I, impl.ghost_N, atom_order=res.fields["atom_order"], name="site_results",
+                               tags=TM.ALL_TAGS)
+        for k in ("_results", "get_result_tags", "_find_uuid"):
+            res.fields[k] = filled.fields[k]
+        res.ghost_times = filled.ghost_times
+        I.ctx.ghost["site_results"] = dict(filled.fields["_results"])
+        I.ctx.ghost["site_times"] = filled.ghost_times
+        I.ctx.ghost["run_impl"] = impl
+        return res
+
+    run_policies_all = dict(run_policies)
+    run_policies_all[f"{BACKEND}:MPSBackend._run"] = run_model_all
+    resume_policies_all = dict(resume_policies)
+    resume_policies_all[f"{BACKEND}:MPSBackend._run"] = run_model_all
+    reported_suffix = ([tag_clause("result._results", "SITE", t, "perm", home=True) for t in suffixed]
+                       + [f"same(result._results[{t!r}], SITE[{t!r}])" for t in other])
+    # fixed size 4: one suffixed occupation, position by position (decisive counter-model on a broken tree)
+    reported_suffix4 = ["forall(lambda t: " + " and ".join(
+        f"result._results['occupation_x'][t][perm[{k}]] == SITE['occupation_x'][t][{k}]" for k in range(4))
+        + ", 0, TIMES)"]
+    for n in (None, 4):
+        tag = "[tag_suffix]" if n is None else "[tag_suffix,N=4]"
+        reg.add_contract(Contract(
+            f"{BACKEND}:MPSBackend._run_from_sequence_data", property=prop,
+            label="MPSBackend._run_from_sequence_data" + tag,
+            params={"sequence_data": none, "config": none}, setup=setup_run(n), post_setup=ghost_run,
+            policies=run_policies_all, raises={},
+            ensures=reported_suffix if n is None else reported_suffix4,
+        ), callsite=False)
+        reg.add_contract(Contract(
+            f"{BACKEND}:MPSBackend.resume", property=prop, label="MPSBackend.resume" + tag,
+            params={"autosave_file": none}, setup=setup_resume(n), post_setup=ghost_run,
+            policies=resume_policies_all, raises={"ValueError": None},
+            ensures=reported_suffix if n is None else reported_suffix4,
+        ), callsite=False)
